@@ -212,6 +212,12 @@ fn load_sources(thorough: bool) -> Vec<Source> {
         let d = tables::minimal_font(226, &[], &[(otmodel::tag(b"cmap"), tables::cmap_table(&[(3, 0, sub)])), (otmodel::tag(b"OS/2"), tables::os2_v4(0xF020, 0xF0FF))]);
         v.push(Source { name: "synthetic/symbol-F020-F0FF".into(), data: d, num_glyphs: 226, small: false, light: true });
     }
+    // CFF / CFF2 sources from the C18 generator: every path operator incl. the four flex forms, stems and masks, width
+    // prefix, every number encoding, local and global subroutines at the bias edges, CID-keyed and FDSelect fonts
+    for (name, d) in crate::c18::corpus_for_c07() {
+        let ng = otmodel::sfnt::parse(&d).and_then(|f| f.table(otmodel::tag(b"maxp"))).map(|m| u16::from_be_bytes([m[4], m[5]])).unwrap_or(0);
+        v.push(Source { name: format!("synthetic/{}", name), data: d, num_glyphs: ng, small: ng <= 8, light: ng > 8 });
+    }
     // (c) composite glyphs whose numberOfContours is a negative value other than -1 (the specification: "if negative, this
     // is a composite glyph" and recommends -1; any negative value must be treated alike), and (d) the same font with
     // WE_HAVE_INSTRUCTIONS only on the first component of every composite that has instructions and >= 2 components
